@@ -88,6 +88,30 @@ func ReadTreeReader(reader *bufio.Reader, format int) (*tree.Tree, error) {
 	return reftree, nil
 }
 
+// splitNewickTrees cuts a text that holds several newick trees
+// ("(a,b);(c,d);") after each ';' that is not part of a [comment].
+// A text with a single tree is returned as is.
+func splitNewickTrees(s string) []string {
+	trees := make([]string, 0, 1)
+	incomment := false
+	start := 0
+	for i := 0; i < len(s); i++ {
+		switch {
+		case incomment:
+			incomment = s[i] != ']'
+		case s[i] == '[':
+			incomment = true
+		case s[i] == ';':
+			trees = append(trees, s[start:i+1])
+			start = i + 1
+		}
+	}
+	if strings.TrimSpace(s[start:]) != "" || len(trees) == 0 {
+		trees = append(trees, s[start:])
+	}
+	return trees
+}
+
 // Read a bunch of trees from the input reader and send each of them to the output channel
 // this function does not close the reader, but closes the channel at the end of the reading.
 // It returns almost immediately because parsing is performed in a go routine. Iterating over
@@ -114,22 +138,28 @@ func ReadMultiTrees(reader *bufio.Reader, format int) <-chan tree.Trees {
 				}
 			}
 			for e == nil {
-				parser := newick.NewParser(strings.NewReader(line))
-				if compTree, err = parser.Parse(); err != nil {
-					compTrees <- tree.Trees{
-						Tree: nil,
-						Id:   id,
-						Err:  err,
+				// Several trees may be written on the same line
+				for _, newickstr := range splitNewickTrees(line) {
+					parser := newick.NewParser(strings.NewReader(newickstr))
+					if compTree, err = parser.Parse(); err != nil {
+						compTrees <- tree.Trees{
+							Tree: nil,
+							Id:   id,
+							Err:  err,
+						}
+						break
+					} else {
+						compTrees <- tree.Trees{
+							Tree: compTree,
+							Id:   id,
+							Err:  nil,
+						}
 					}
-					break
-				} else {
-					compTrees <- tree.Trees{
-						Tree: compTree,
-						Id:   id,
-						Err:  nil,
-					}
+					id++
 				}
-				id++
+				if err != nil {
+					break
+				}
 				line, e = fileutils.ReadUntilSemiColon(reader)
 			}
 		case FORMAT_NEXUS:
